@@ -17,6 +17,7 @@ from ..core import Engine, stream, BuildError, digest
 from ..build import World
 from ..gen import ExprGen, gen_types, values_of, subtype_of
 from ..refsem import RefSem, Ambiguous, state_key
+from ..inject import Callbacks
 from .statehist import KNOBS
 
 import unified_planning as up
@@ -284,6 +285,20 @@ class EnvSim(Engine):
                             continue
                     ad["effects"].append({"kind": kind, "fluent": target, "value": value, "cond": cond, "forall": []})
             actions.append(ad)
+        rif = stream(seed, "ifun")
+        if rif.random() < 0.3:
+            # a user function of a PARAMETER or a CONSTANT in some preconditions: evaluated once, while the action
+            # instance is grounded on its first use
+            t0 = tnames[0]
+            world["ifuns"] = [{"name": "ok", "ret": ["bool"], "params": [["user", t0]],
+                               "table": [[[o], ["bool", rif.random() < 0.8]] for o, ot in objs if subtype_of(tmap, ot, t0)],
+                               "default": ["bool", True]}]
+            some = [o for o, ot in objs if subtype_of(tmap, ot, t0)]
+            for ad in actions:
+                if rif.random() < 0.6 and some:
+                    own = [pn for pn, pt in ad["params"] if subtype_of(tmap, pt[1], t0)]
+                    arg = ["p", own[0]] if own else ["o", rif.choice(some)]
+                    ad["pre"] = list(ad["pre"]) + [["if", "ok", arg]]
         world["actions"] = actions
         g = ExprGen(ra, gw, [], quant=False, ifuns=False, div=False, const_range=(0, 3))
         world["goals"] = [g.bool_expr(ra.randint(0, 1))]
@@ -320,6 +335,11 @@ class EnvSim(Engine):
                 st = new
         script = {"engine": self.name, "knobs": {"max_ancestors": rk.choice(KNOBS)}, "world": world,
                   "pick": pick, "ops": ops}
+        rfa = stream(seed, "faults")
+        if world.get("ifuns"):
+            steps = [o for o in ops if o["op"] == "apply"]
+            for o in rfa.sample(steps, min(len(steps), rfa.choice([1, 2, 3]))):
+                o["fault"] = {"kind": "callback_raise", "fn": world["ifuns"][0]["name"], "nth": 1}
         re_ = stream(seed, "earlier-env")
         if re_.random() < 0.25 and len(constraints) >= 2:
             script["earlier_env"] = {"max_constraints": re_.randint(1, len(constraints) - 1)}
@@ -344,7 +364,7 @@ class EnvSim(Engine):
             actions.append({"name": ad["name"], "params": ad["params"], "pre": ad["pre"],
                             "effects": [] if ad.get("sensing") else ad["effects"]})
         return {"types": world["types"], "objects": world["objects"], "fluents": fluents, "init": init,
-                "actions": actions, "goals": world["goals"], "invariants": []}
+                "actions": actions, "goals": world["goals"], "invariants": [], "ifuns": world.get("ifuns", [])}
 
     # ------------------------------------------------------------------ execute
     def execute(self, script, ctx):
@@ -441,7 +461,8 @@ class EnvSim(Engine):
             ctx.probe("discarded-undeclared-non-boolean-fluent")
             return False
         try:
-            W = World(world)
+            cb = Callbacks()
+            W = World(world, callbacks=cb)
             problem, acts = self.build_problem(W, world)
         except BuildError:
             raise
@@ -582,6 +603,10 @@ class EnvSim(Engine):
                 ctx.ev(i, "apply", op["a"], "ambiguous")
                 ctx.outcome("apply", "ambiguous")
                 continue
+            fault = op.get("fault")
+            if fault:
+                ctx.faults_cfg["callback_raise"] += 1
+                cb.arm(fault["fn"], fault["nth"])
             try:
                 obs = env.apply(ai)
                 res = "ok"
@@ -589,6 +614,18 @@ class EnvSim(Engine):
                 res = "refused"
             except Exception as ex:
                 res = type(ex).__name__
+            finally:
+                cb.disarm()
+            if fault and cb.fired:
+                # the user's function failed inside this step: the step failed and changed nothing; the steps that
+                # follow are judged as if it had never been attempted
+                ctx.faults_fired["callback_raise"] += 1
+                ctx.probe("step-failed-in-user-code")
+                ctx.check("C35.state", read() == model, f"step {i} failed in user code ({res}) but changed the state to "
+                          f"{show(read())}, reference {show(model)}", cls="state-changed-by-failed-step")
+                ctx.ev(i, "apply", op["a"], op["params"], "faulted", res)
+                ctx.outcome("apply", "faulted")
+                continue
             ctx.ev(i, "apply", op["a"], op["params"], res)
             ctx.outcome("sense" if ad.get("sensing") else "apply", res)
             if ok:
